@@ -107,3 +107,24 @@ package hopserver
 //@   ensures old(sess.usingAuthGrant) && (called(thunks.StartCmd) || called(pty.Start) || called(pty.StartWithSize)) ==>
 //@        argof(hopserver.hopSession.checkCmd, shell) == resultof(codex.GetCmd, shell) &&
 //@        same(argof(hopserver.hopSession.checkCmd, cmd), resultof(codex.GetCmd, cmd))
+
+// The server stores a grant only with grants enabled, under the intent's own (user, key),
+// and admits exactly the delegate key named in the intent to the transport key set.
+//@ func (s *HopServer) AddAuthGrant(intent *authgrants.Intent) (err error)
+//@   property C07
+//@   ensures err == nil ==> old(s.config.EnableAuthgrants) && intent != nil
+//@   ensures err == nil ==> called(authgrants.AuthgrantMapSync.AddAuthGrant) && argof(authgrants.AuthgrantMapSync.AddAuthGrant, i) == intent &&
+//@        argof(authgrants.AuthgrantMapSync.AddAuthGrant, m) == old(s.agMap)
+//@   ensures err == nil ==> called(authkeys.SyncAuthKeySet.AddKey) && callcount(authkeys.SyncAuthKeySet.AddKey) == 1
+//@   ensures err != nil ==> !called(authgrants.AuthgrantMapSync.AddAuthGrant) && !called(authkeys.SyncAuthKeySet.AddKey)
+
+// Tubes that start port forwarding or issue further grants are not covered by any
+// grant check: a session admitted through authorization grants must not reach them.
+//@ func (sess *hopSession) startPF(ch *tubes.Reliable)
+//@   requires !sess.usingAuthGrant
+//@ func (sess *hopSession) handlePF(ch tubes.Tube)
+//@   requires !sess.usingAuthGrant
+//@ func (sess *hopSession) handleAgc(tube *tubes.Reliable)
+//@   requires !sess.usingAuthGrant
+//@ func (sess *hopSession) start()
+//@   property C07
